@@ -196,6 +196,9 @@ def check_cell(uc, prm, tag, rng):
         return f"{tag}: inter-vector angles {angs} != parameters {(al, be, ga)}"
     if not np.allclose(np.asarray(uc.angles, dtype=float), [al, be, ga], rtol=0, atol=1e-7):
         return f"{tag}: reported angles {list(uc.angles)} != {(al, be, ga)}"
+    par = np.asarray(uc.parameters, dtype=float)
+    if par.shape != (6,) or not np.allclose(par[:3], [a, b, c], rtol=1e-6, atol=0) or not np.allclose(par[3:], np.degrees([al, be, ga]), rtol=0, atol=1e-4):
+        return f"{tag}: parameters = {par.tolist()} is not (a, b, c, alpha, beta, gamma in degrees) = {[a, b, c] + np.degrees([al, be, ga]).tolist()}"
     vol = uc.volume()
     detD = abs(np.linalg.det(D)) if "left-handed" in tag else np.linalg.det(D)
     if not (vol > 0 and abs(vol - detD) <= 1e-9 * amp * abs(vol) * 10):
